@@ -93,6 +93,11 @@ def collect(run, results, mine, w_args, menu_fn, ignore=()):
     from engine import battery
     battery.validate(run)
     for recs, st, nmenu in results:
+        if isinstance(recs, str) and recs == "ALIAS":
+            run.oblige(False)
+            run.fail("distinct identifiers are stored at the same address :: %s" % (st[0][0][0],),
+                     dict(aliasing=st), dict(harness="alias", what=st, clauses=["alias"]))
+            continue
         run.add_stats(st)
         for r in recs:
             run.reach[r["res"]] += 1
@@ -115,5 +120,7 @@ def make_replayer(w_args, menu_fn, kernels_fn=None):
         if payload.get("harness") == "xh":
             from engine import xh
             return xh.replay_kernel(kernels_fn(), payload)
+        if payload.get("harness") == "alias":
+            return step.alias_native(payload["what"])
         return step.replay_native(w_args, menu_fn, payload["vals"], payload["clauses"])
     return replay
